@@ -145,7 +145,30 @@ func RunC02(r *sim.Run) {
 
 	var reqs []*c02Req
 	n := t.Range(8, 28)
+	resets := 0
 	for i := 0; i < n; i++ {
+		if faults && t.Draw(10) == 0 {
+			// the health probes of a cluster's endpoints hang while their bodies are read, three
+			// times in a row (the gateway then rebuilds the endpoint's transports), and recover
+			cl := names[t.Draw(len(names))]
+			for _, e := range w.EndpointsOf(cl) {
+				w.StubFor(e).Health = "hang-body"
+			}
+			r.Fault("health_flap")
+			for k := 0; k < 8; k++ {
+				w.Advance(5 * time.Second)
+				w.Boundary()
+			}
+			for _, e := range w.EndpointsOf(cl) {
+				w.StubFor(e).Health = ""
+			}
+			for k := 0; k < 3; k++ {
+				w.Advance(4 * time.Second)
+				w.Boundary()
+			}
+			resets++
+			r.Logf("probes of %s hung mid-body for 40 s and recovered", cl)
+		}
 		c := &c02Req{cluster: names[t.Draw(len(names))], impExtra: map[string][]string{}}
 		q := &Req{ID: fmt.Sprintf("i%d", i), Host: c.cluster, Method: "GET", Target: "/api/v1/namespaces/default/pods"}
 		c.q = q
@@ -361,6 +384,7 @@ func RunC02(r *sim.Run) {
 	r.ProbeN("forwarded_checked", nFwd)
 	r.ProbeN("refused_checked", nRefused)
 	r.ProbeN("impersonations_forwarded", nImp)
+	r.ProbeN("probe_hang_episodes", resets)
 	r.Nontrivial = nFwd > 0 && nRefused > 0
 	var sample []string
 	for i, c := range reqs {
